@@ -1177,6 +1177,18 @@ def encryptor_suite(ctx, w):
             ctx.fail('independent-encryptor', 'model encryptor failed: ' + mo[:80], case)
             continue
         raw = unhx(mo[3:])
+        if i % 7 == 3:
+            # one more recipient, of a public-key algorithm PGPy has no ciphertext class for (RFC 4880 5.1: any number of session key
+            # packets, a reader skips those it cannot use): the message still decrypts for the others, and is exported as it was read
+            alg_x = rng.choice([21, 22, 100, 110, 0])
+            xb = b'\x03' + bytes(rng.randrange(256) for _ in range(8)) + bytes([alg_x]) + bytes(rng.randrange(256) for _ in range(rng.choice([1, 12, 40, 200])))
+            raw = bytes([0xC1]) + (bytes([len(xb)]) if len(xb) < 192 else bytes([((len(xb) - 192) >> 8) + 192, (len(xb) - 192) & 0xFF])) + xb + raw
+            case['extra_pkesk_of_algorithm'] = alg_x
+            ctx.dist['independent-encryptor:extra-pkesk-unknown-algorithm'] = ctx.dist.get('independent-encryptor:extra-pkesk-unknown-algorithm', 0) + 1
+            rex = outcome(lambda: bytes(pgpy.PGPMessage.from_blob(raw)))
+            if rex != ('ok', raw):
+                ctx.fail('independent-encryptor', 'a message with a session key packet of an unknown algorithm is not exported as it was read',
+                         dict(case, blob=raw.hex() if len(raw) < 6000 else None, impl=repr(rex)[:200]))
         if i % 5 == 1:
             # the sender STREAMS the encrypted data packet (RFC 4880 4.2.2.4): partial body lengths, the last part closed by a one-,
             # two- or five-octet length according to what is left
